@@ -16,6 +16,7 @@ import MilaModel.Lemmas.FsLayer
 import MilaModel.Lemmas.FsBridge
 import MilaModel.Lemmas.FsSuffix
 import MilaModel.Props.C14
+import MilaModel.Lemmas.ComposeLz
 
 namespace Mila.Props.C12
 open Mila Mila.LayeredFs Mila.Spec.Overlay
@@ -827,5 +828,171 @@ example :
     r.1.layers.getLast? = some [([bs ['f']], .dir), ([bs ['m']], .dir), ([bs ['m'], bs ['@', 'E']], .dir),
       ([bs ['m'], bs ['@', 'E'], bs ['x', '.', 'l', 'z']], .file [0x13, 7, 7])] ∧
     r.1.read demoEnv (bs ['m', '/', 'x', '.', 'l', 'z']) true = .ok [7, 7] := by decide
+
+/-! ### composition with C08 / C09 / C10 / C11: the LZ hypothesis discharged
+
+`read_after_write` takes the LZ round trip of the abstract environment as a hypothesis over *all*
+payloads.  The real formats store the length in 24 bits, so the round trip holds for payloads
+shorter than 16 MiB (C08 `lz10_roundtrip`, C09 `lz13_roundtrip`; the empty payload included) — the
+theorems are therefore first restated with the round trip required of the written payload only, and
+then instantiated with the concrete LZ models (`Compose.realLz`: `Model/Lz.lean` behind a
+`List`/`Array` adapter), where the hypothesis becomes "the payload is shorter than 16 MiB". -/
+
+/-- `read_after_write` with the LZ round trip required of the written payload only. -/
+theorem read_after_write_payload (E : Env) (fs fs' : Fs) (p b : Bytes) (loc : Bool)
+    (hrt : isCompressed fs.cfg.lz p = true →
+      ∀ c, (E.lz fs.cfg.lz).compress b = .ok c → (E.lz fs.cfg.lz).decompress c = .ok b)
+    (h : fs.write E p b loc = (fs', .ok ())) :
+    fs'.read E p loc = .ok b := by
+  obtain ⟨a, c, top, top', ha, hc, htop, hw, rfl⟩ := write_ok_cases E fs fs' p b loc h
+  have hne : fs.layers ≠ [] := by intro e; simp [e] at htop
+  obtain ⟨_, _, hlast, hcfg, hlang⟩ := setTop_frame fs top' hne
+  have hstat := Layer.stat_after_write top top' a c hw
+  unfold Fs.read
+  have ha' : (fs.setTop top').actualPath p loc = .ok a := by
+    unfold Fs.actualPath at ha ⊢; rw [hcfg, hlang]; exact ha
+  simp only [ha']
+  rw [readAt_top_file E (fs.setTop top') top' a c _ hlast hstat, hcfg]
+  unfold encoded at hc
+  by_cases hz : isCompressed fs.cfg.lz p = true
+  · simp only [hz, if_true] at hc ⊢
+    cases hcomp : (E.lz fs.cfg.lz).compress b with
+    | ok c0 =>
+      simp only [hcomp, reclass] at hc
+      have hcc : c0 = c := Res.ok.inj hc
+      subst hcc
+      simp [hrt hz c0 hcomp, reclass]
+    | err e => simp [hcomp, reclass] at hc
+    | panic => simp [hcomp, reclass] at hc
+  · simp only [hz] at hc ⊢
+    have hcc : b = c := Res.ok.inj hc
+    subst hcc; rfl
+
+/-- `read_after_write_history` with the LZ round trip required of the written payload only. -/
+theorem read_after_write_history_payload (E : Env) (fs fs1 : Fs) (p b : Bytes) (loc : Bool)
+    (ops : List (Op E))
+    (hrt : isCompressed fs.cfg.lz p = true →
+      ∀ c, (E.lz fs.cfg.lz).compress b = .ok c → (E.lz fs.cfg.lz).decompress c = .ok b)
+    (h : fs.write E p b loc = (fs1, .ok ()))
+    (hops : ∀ op ∈ ops, Op.target E fs op ≠ (fs.actualPath p loc).toOption.map (fun a => (parsePath a).comps)) :
+    (run E fs1 ops).read E p loc = .ok b := by
+  obtain ⟨a, c, top, top', ha, hc, htop, hw, rfl⟩ := write_ok_cases E fs fs1 p b loc h
+  have hnl : fs.layers ≠ [] := by intro e; simp [e] at htop
+  obtain ⟨hne, hmd, hget⟩ := Layer.write_ok top top' a c hw
+  obtain ⟨_, _, hlast, hcfg, hlang⟩ := setTop_frame fs top' hnl
+  -- invariant along the history: same configuration, the top layer still holds the file
+  have inv : ∀ (ops : List (Op E)) (s : Fs), s.cfg = fs.cfg → s.lang = fs.lang →
+      (∃ t, s.layers.getLast? = some t ∧ t.get (parsePath a).comps = some (.file c)) →
+      (∀ op ∈ ops, Op.target E fs op ≠ some (parsePath a).comps) →
+      (run E s ops).cfg = fs.cfg ∧ (run E s ops).lang = fs.lang ∧
+      ∃ t, (run E s ops).layers.getLast? = some t ∧ t.get (parsePath a).comps = some (.file c) := by
+    intro ops
+    induction ops with
+    | nil => intro s h1 h2 h3 _; exact ⟨h1, h2, h3⟩
+    | cons op rest ih =>
+      intro s h1 h2 ⟨t, ht1, ht2⟩ hall
+      obtain ⟨_, _, f3, f4⟩ := step_frame E s op
+      have htgt : Op.target E s op = Op.target E fs op := by
+        cases op <;> simp only [Op.target, Fs.actualPath, h1, h2]
+      have hne' : Op.target E s op ≠ some (parsePath a).comps := by
+        rw [htgt]; exact hall op (by simp)
+      obtain ⟨t', ht1', ht2'⟩ := step_keeps E s op t _ c ht1 ht2 hne'
+      exact ih (step E s op) (f3.trans h1) (f4.trans h2) ⟨t', ht1', ht2'⟩
+        (fun o ho => hall o (by simp [ho]))
+  have hops' : ∀ op ∈ ops, Op.target E fs op ≠ some (parsePath a).comps := by
+    intro op hop; have := hops op hop; simpa [ha, Res.toOption] using this
+  obtain ⟨c1, c2, t, ht1, ht2⟩ := inv ops (fs.setTop top') hcfg hlang ⟨top', hlast, hget⟩ hops'
+  have hstat : t.stat a = some (.file c) := by simp [Layer.stat, ht2, hmd]
+  unfold Fs.read
+  have ha' : (run E (fs.setTop top') ops).actualPath p loc = .ok a := by
+    unfold Fs.actualPath at ha ⊢; rw [c1, c2]; exact ha
+  simp only [ha']
+  rw [readAt_top_file E _ t a c _ ht1 hstat, c1]
+  unfold encoded at hc
+  by_cases hz : isCompressed fs.cfg.lz p = true
+  · simp only [hz, if_true] at hc ⊢
+    cases hcomp : (E.lz fs.cfg.lz).compress b with
+    | ok c0 =>
+      simp only [hcomp, reclass] at hc
+      have hcc : c0 = c := Res.ok.inj hc
+      subst hcc
+      simp [hrt hz c0 hcomp, reclass]
+    | err e => simp [hcomp, reclass] at hc
+    | panic => simp [hcomp, reclass] at hc
+  · simp only [hz] at hc ⊢
+    have hcc : b = c := Res.ok.inj hc
+    subst hcc; rfl
+
+/-- **The concrete LZ instance round-trips** (C08, C09, C11 on byte lists): for either format and
+every payload shorter than 16 MiB, the empty one included, decompressing what the compressor
+returned gives the payload back. -/
+theorem lz_roundtrip_real (k : LzKind) (b : Bytes) (hb : b.length < 2 ^ 24) :
+    ∀ c, (Compose.realLz k).compress b = .ok c → (Compose.realLz k).decompress c = .ok b :=
+  Compose.realLz_roundtrip k b hb
+
+/-- **read_after_write, LZ discharged.**  In every environment whose LZ slots are the concrete LZ10 /
+LZ13 models, after a successful write reading the same path with the same localisation choice
+returns exactly the written bytes — for a path with the compressed suffix provided the payload is
+shorter than 16 MiB; no condition otherwise. -/
+theorem read_after_write_lz (E : Env) (hE : ∀ k, E.lz k = Compose.realLz k) (fs fs' : Fs)
+    (p b : Bytes) (loc : Bool) (hb : isCompressed fs.cfg.lz p = true → b.length < 2 ^ 24)
+    (h : fs.write E p b loc = (fs', .ok ())) :
+    fs'.read E p loc = .ok b :=
+  read_after_write_payload E fs fs' p b loc
+    (fun hz => by rw [hE]; exact Compose.realLz_roundtrip _ b (hb hz)) h
+
+/-- **read_after_write over histories, LZ discharged.** -/
+theorem read_after_write_history_lz (E : Env) (hE : ∀ k, E.lz k = Compose.realLz k) (fs fs1 : Fs)
+    (p b : Bytes) (loc : Bool) (ops : List (Op E))
+    (hb : isCompressed fs.cfg.lz p = true → b.length < 2 ^ 24)
+    (h : fs.write E p b loc = (fs1, .ok ()))
+    (hops : ∀ op ∈ ops, Op.target E fs op ≠ (fs.actualPath p loc).toOption.map (fun a => (parsePath a).comps)) :
+    (run E fs1 ops).read E p loc = .ok b :=
+  read_after_write_history_payload E fs fs1 p b loc ops
+    (fun hz => by rw [hE]; exact Compose.realLz_roundtrip _ b (hb hz)) h hops
+
+/-- With the concrete compressors the encoding stage of `write` never fails (C08 `lz10_total`,
+C09 `lz13_total`): a write of a domain path succeeds exactly when the top layer can take the file. -/
+theorem write_succeeds_iff_lz (E : Env) (hE : ∀ k, E.lz k = Compose.realLz k) (fs : Fs) {p : Bytes}
+    {q : Loc} (h : locOf p = some q) (b : Bytes) (top : Layer) (htop : fs.layers.getLast? = some top) :
+    (fs.write E p b false).2 = .ok () ↔ writable (walkOf top) q = true := by
+  have henc : ∃ s, encoded E fs p b = .ok s := by
+    unfold encoded
+    by_cases hz : isCompressed fs.cfg.lz p = true
+    · obtain ⟨c, hc⟩ := Compose.realLz_compress_total fs.cfg.lz b
+      simp only [hz, if_true, hE, hc, reclass]
+      exact ⟨c, rfl⟩
+    · simp only [hz]; exact ⟨b, rfl⟩
+  obtain ⟨s, hs⟩ := henc
+  exact write_succeeds_iff E fs h b s top htop hs
+
+/-- **Stored size (C10 ∘ `stored_is_compressed`).**  After a successful write on a path with the
+compressed suffix, the file stored in the top layer (at the localised location) is at most the
+format's header (`Compose.lzHeaderLen`: 4 bytes for LZ10; 8 for LZ13, 12 for the empty payload),
+the payload length `n` and one flag byte per eight payload bytes. -/
+theorem stored_size_bound_lz (E : Env) (hE : ∀ k, E.lz k = Compose.realLz k) (fs fs' : Fs)
+    (p b : Bytes) (loc : Bool) (hz : isCompressed fs.cfg.lz p = true)
+    (h : fs.write E p b loc = (fs', .ok ())) :
+    ∃ a c top', fs.actualPath p loc = .ok a ∧ fs'.layers.getLast? = some top' ∧ top'.read a = .ok c ∧
+      c.length ≤ Compose.lzHeaderLen fs.cfg.lz b.length + b.length + (b.length + 7) / 8 := by
+  obtain ⟨a, c, top', ha, hc, htop, hr⟩ := stored_is_compressed E fs fs' p b loc hz h
+  rw [hE] at hc
+  exact ⟨a, c, top', ha, htop, hr, Compose.realLz_size_bound _ b c hc⟩
+
+/-! Non-vacuity: an environment with the concrete LZ instance, and a write on a compressed path
+whose success follows from `write_succeeds_iff_lz`; the composed theorems then apply. -/
+
+example : ∀ k, (Compose.withRealLz demoEnv).lz k = Compose.realLz k := Compose.withRealLz_lz demoEnv
+
+example : ∃ fs', demoFs.write (Compose.withRealLz demoEnv) (bs ['y', '.', 'l', 'z']) [7, 7, 7, 7, 7] false
+      = (fs', .ok ()) ∧
+    fs'.read (Compose.withRealLz demoEnv) (bs ['y', '.', 'l', 'z']) false = .ok [7, 7, 7, 7, 7] := by
+  have hE := Compose.withRealLz_lz demoEnv
+  have hloc : locOf (bs ['y', '.', 'l', 'z']) = some ⟨[bs ['y', '.', 'l', 'z']], false⟩ := by decide
+  have hok := (write_succeeds_iff_lz (Compose.withRealLz demoEnv) hE demoFs hloc [7, 7, 7, 7, 7]
+    [([bs ['f']], .dir)] (by decide)).mpr (by decide)
+  refine ⟨(demoFs.write (Compose.withRealLz demoEnv) (bs ['y', '.', 'l', 'z']) [7, 7, 7, 7, 7] false).1,
+    Prod.ext rfl hok, ?_⟩
+  exact read_after_write_lz _ hE demoFs _ _ _ false (fun _ => by decide) (Prod.ext rfl hok)
 
 end Mila.Props.C12
